@@ -652,6 +652,7 @@ func (self *LocalJobManager) Enqueue(shellCmd string, argv []string,
 			}
 		}
 		err := executeLocal(cmd, stdoutPath, stderrPath, localpreflight, metadata)
+		verifProc(metadata, "ProcExit", cmd)
 		// CentOS < 5.5 workaround
 		if err != nil {
 			if strings.Contains(err.Error(), exitCodeString) {
@@ -731,6 +732,7 @@ func executeLocal(cmd *exec.Cmd, stdoutPath, stderrPath string,
 		defer util.ExitCriticalSection()
 		err = cmd.Start()
 		if err == nil {
+			verifProc(metadata, "ProcStart", cmd)
 			return metadata.remove(QueuedLocally)
 		}
 		return err
